@@ -521,6 +521,9 @@ fn gen_body(rng: &mut Rng, profile: u8, j: usize, table: &[u32]) -> String {
         }
         _ => {
             let len = match profile {
+                // length trend: the first third of the segment is long, the rest short — block
+                // bounds taken from the beginning of a posting list are far below later scores
+                8 => if j % 3000 < 700 { 150 + rng.below(250) as usize } else { 1 + rng.below(6) as usize },
                 0 => 1 + rng.below(8) as usize,
                 2 => 300 + rng.below(2500) as usize,
                 _ => {
@@ -534,7 +537,7 @@ fn gen_body(rng: &mut Rng, profile: u8, j: usize, table: &[u32]) -> String {
             let mut left = len;
             for (ti, t) in TERMS.iter().enumerate() {
                 // document frequencies fall with the term index; tf skewed
-                let p = [70u64, 45, 25, 12, 5, 2][ti];
+                let p = if profile == 8 { [75u64, 60, 50, 40, 30, 5][ti] } else { [70u64, 45, 25, 12, 5, 2][ti] };
                 if left > 0 && rng.below(100) < p {
                     let tf = match rng.below(10) { 0..=5 => 1, 6 | 7 => 1 + rng.below(4) as usize, 8 => 1 + rng.below(30) as usize, _ => 1 + rng.usize_below(left) };
                     let tf = tf.min(left);
@@ -591,7 +594,7 @@ fn build(spec: &CorpusSpec) -> Built {
         for j in 0..seg.docs {
             let mut doc = TantivyDocument::default();
             doc.add_text(fields.body, gen_body(&mut rng, seg.profile, j, &table));
-            if seg.profile < 3 {
+            if seg.profile < 3 || seg.profile == 8 {
                 // `title`: short, with freqs; `basic`: no freqs, frequent terms (>= 128 postings in
                 // the larger segments), lengths spread over several field-norm codes
                 let tl = 1 + rng.usize_below(5);
@@ -943,6 +946,11 @@ fn compare_result(all: &[(Key, u64)], expected: &[(Key, u64)], real: &[(Key, u64
     wrong
 }
 
+thread_local! {
+    /// paging runs evaluate the model's `topK` on the first page only (the model sorts by insertion)
+    static SKIP_MODEL_SPEC: std::cell::Cell<bool> = const { std::cell::Cell::new(false) };
+}
+
 #[allow(clippy::too_many_arguments)]
 fn check_search(ctx: &mut Ctx, spec: &CorpusSpec, built: &Built, searcher: &Searcher, threads: usize, qe: &QueryEval, kind: &Kind, k: usize, o: usize) -> bool {
     let case = json!({"kind": "search", "corpus": spec.to_json(), "query": qe.q.to_json(), "collector": kind_to_json(kind), "k": k, "offset": o, "threads": threads, "segment_order": segment_order(searcher)});
@@ -969,7 +977,7 @@ fn check_search(ctx: &mut Ctx, spec: &CorpusSpec, built: &Built, searcher: &Sear
     let real: Vec<(Key, u64)> = real.into_iter().map(|(k, a)| (k, addr_nat(&a))).collect();
     let mut wrong: Option<String> = compare_result(&all, &expected, &real, o, exact, qe.q.clauses());
     // the specification evaluated by the model on the same exhaustive list (ranks preserve the order)
-    if wrong.is_none() && exact && all.len() <= 2500 {
+    if wrong.is_none() && exact && all.len() <= 2500 && !SKIP_MODEL_SPEC.with(|c| c.get()) {
         let mut ranks: Vec<i64> = Vec::with_capacity(all.len());
         let mut r: i64 = 0;
         for p in 0..all.len() {
@@ -1190,7 +1198,7 @@ fn gen_kind(rng: &mut Rng) -> Kind {
 
 fn gen_corpus(rng: &mut Rng, flavour: u64, thorough: bool) -> CorpusSpec {
     let big = if thorough { 3 } else { 1 };
-    let nseg = match flavour { 0 => 1, 1 => 2, 5 => 3 + rng.usize_below(4), _ => 1 + rng.usize_below(6) };
+    let nseg = match flavour { 0 => 1, 1 => 2, 5 => 3 + rng.usize_below(4), 6 => 1 + rng.usize_below(2), _ => 1 + rng.usize_below(6) };
     let mut segs = vec![];
     for s in 0..nseg {
         let profile: u8 = match flavour {
@@ -1202,6 +1210,8 @@ fn gen_corpus(rng: &mut Rng, flavour: u64, thorough: bool) -> CorpusSpec {
             4 => if s == 0 { 4 } else { [5u8, 2, 0][rng.usize_below(3)] },
             // ties neighbourhood: scores / keys tie massively and improve with the segment ordinal
             5 => if s < 2 { 6 } else { 7 },
+            // length trend inside a segment (stale block bounds are far too low later on)
+            6 => if s == 0 { 8 } else { [8u8, 0, 1][rng.usize_below(3)] },
             _ => [0u8, 1, 1, 1, 2, 0][rng.usize_below(6)],
         };
         let docs = match profile {
@@ -1210,12 +1220,13 @@ fn gen_corpus(rng: &mut Rng, flavour: u64, thorough: bool) -> CorpusSpec {
             4 => 128 + 128 + 50,
             5 => [200usize, 3000 * big, 5000 * big][rng.usize_below(3)],
             6 | 7 => [3usize, 20, 60, 150, 400][rng.usize_below(5)],
+            8 => [1500usize, 3000, 4500][rng.usize_below(3)],
             0 => [1usize, 127, 128, 129, 1000, 4097, 4500 * big][rng.usize_below(7)],
             _ => [1usize, 50, 128, 129, 400, 1500 * big, 4200][rng.usize_below(7)],
         };
         segs.push(SegSpec { seed: rng.next_u64(), docs, profile });
     }
-    let delete_permille = match flavour { 0 | 4 => 0, 5 => [0u64, 0, 50][rng.usize_below(3)], _ => [0u64, 0, 5, 50, 300][rng.usize_below(5)] };
+    let delete_permille = match flavour { 0 | 4 | 6 => 0, 5 => [0u64, 0, 50][rng.usize_below(3)], _ => [0u64, 0, 5, 50, 300][rng.usize_below(5)] };
     CorpusSpec { segs, delete_seed: rng.next_u64(), delete_permille, ties_trend: flavour == 5, ties_explicit: None }
 }
 
@@ -1240,7 +1251,9 @@ fn searchers(built: &Built) -> Vec<(usize, Searcher)> {
 }
 
 fn corpus_run(ctx: &mut Ctx, spec: &CorpusSpec, rng: &mut Rng, n_queries: usize, n_searches: usize) {
+    let t_build = std::time::Instant::now();
     let built = build(spec);
+    ctx.report.count_n("millis:build", t_build.elapsed().as_millis() as u64);
     let ss = searchers(&built);
     let mut qs: Vec<Q> = vec![Q::Term("a".into()), Q::Union(vec!["a".into(), "b".into()])];
     for _ in 0..n_queries {
@@ -1267,9 +1280,10 @@ fn corpus_run(ctx: &mut Ctx, spec: &CorpusSpec, rng: &mut Rng, n_queries: usize,
             check_search(ctx, spec, &built, searcher, *threads, qe, &kind, k, o);
         }
         // paging over successive offsets: every match exactly once (exactly comparable keys)
+        let t_page = std::time::Instant::now();
         if qi % 3 == 0 && m > 0 && m <= 3000 {
             let kind = loop { let k = gen_kind(rng); if !k.uses_score() || qe.q.clauses() <= 1 { break k } };
-            let k = 1 + rng.usize_below(m.min(64));
+            let k = (1 + rng.usize_below(m.min(64))).max(m / 30);
             let (threads, searcher) = &ss[if rng.chance(1, 2) { ss.len() - 1 } else { 0 }];
             let mut pages: Vec<u64> = vec![];
             let mut o = 0;
@@ -1277,7 +1291,9 @@ fn corpus_run(ctx: &mut Ctx, spec: &CorpusSpec, rng: &mut Rng, n_queries: usize,
             // every page is itself a checked (and, on failure, attributed) search
             let mut pages_ok = true;
             loop {
+                SKIP_MODEL_SPEC.with(|c| c.set(o > 0));
                 pages_ok &= check_search(ctx, spec, &built, searcher, *threads, qe, &kind, k, o);
+                SKIP_MODEL_SPEC.with(|c| c.set(false));
                 match run_real(searcher, qe.query.as_ref(), &kind, k, o) {
                     Ok(p) if p.is_empty() => break,
                     Ok(p) => pages.extend(p.iter().map(|(_, a)| addr_nat(a))),
@@ -1292,12 +1308,15 @@ fn corpus_run(ctx: &mut Ctx, spec: &CorpusSpec, rng: &mut Rng, n_queries: usize,
             exp.sort();
             ctx.report.count("paging-runs");
             ctx.report.case(&format!("paging|{}|{}|{}|{k}", spec.to_json(), qe.q.to_json(), kind.name()), m > k);
+            ctx.report.count_n("millis:paging", t_page.elapsed().as_millis() as u64);
             if pages_ok && (!ok || sorted != exp) {
                 ctx.report.violation("oracle", "C06:paging-not-a-partition", format!("pages of {k} by {} over {} ({threads} thread(s)) enumerate {} entries ({} distinct) for {m} matches", kind.name(), qe.q.to_json(), pages.len(), { let mut d = sorted.clone(); d.dedup(); d.len() }), json!({"kind": "paging", "corpus": spec.to_json(), "query": qe.q.to_json(), "collector": kind_to_json(&kind), "k": k, "threads": threads}));
             }
         }
     }
-    driver_run(ctx, spec, &built, &ss[0].1, rng, 6);
+    let t_drv = std::time::Instant::now();
+    driver_run(ctx, spec, &built, &ss[0].1, rng, 12);
+    ctx.report.count_n("millis:driver", t_drv.elapsed().as_millis() as u64);
     let _ = built.num_docs;
 }
 
@@ -1702,18 +1721,20 @@ pub fn run(ctx: &mut Ctx) {
     topn_case(ctx, 1, false, &[5, 5, 5, 5, 5], &[0, 1, 2, 3, 4], "corpus");
     topn_case(ctx, 2, true, &[3, 1, 1, 1, 1, 0, 1], &[0, 1, 2, 3, 4, 5, 6], "corpus");
     known_corpora(ctx);
-    let guided = ctx.budget(10, 80) as usize;
+    let guided = ctx.budget(16, 100) as usize;
     guided_ties(ctx, guided, 200_000);
     let n_topn = ctx.budget(3000, 60_000);
     gen_topn(ctx, n_topn);
-    let corpora = ctx.budget(48, 400);
+    let corpora = ctx.budget(120, 800);
     let mut rng = ctx.rng.fork();
     for c in 0..corpora {
-        let flavour = match c % 8 { 0 | 1 => 0, 2 => 3, 3 => 4, 4 => 1, 5 => 5, _ => 2 };
+        let flavour = match c % 8 { 0 => 0, 1 => 6, 2 => 3, 3 => 4, 4 => 1, 5 => 5, _ => 2 };
         let spec = gen_corpus(&mut rng, flavour, ctx.thorough());
-        ctx.report.count(&format!("corpus-flavour:{}", ["clean-1seg", "2seg", "multi-seg", "F5-neighbourhood", "S3-neighbourhood", "ties-neighbourhood"][flavour as usize]));
+        ctx.report.count(&format!("corpus-flavour:{}", ["clean-1seg", "2seg", "multi-seg", "F5-neighbourhood", "S3-neighbourhood", "ties-neighbourhood", "length-trend"][flavour as usize]));
         let mut r2 = rng.fork();
+        let t0 = std::time::Instant::now();
         corpus_run(ctx, &spec, &mut r2, 7, 6);
+        ctx.report.count_n(&format!("millis:corpus-flavour:{flavour}"), t0.elapsed().as_millis() as u64);
         if c < 2 {
             ctx.report.sample(json!({"part": "B", "corpus": spec.to_json(), "example": "each query: exhaustive (doc, score) list once, then TopDocs by several collectors / K / offsets / executors + a paging run"}));
         }
